@@ -131,6 +131,7 @@ def run(ctx):
     q = ctx.tier == "quick"
     pinned_selftests(ctx, "EBB3Link_c05.cfg", PINNED)
     ctx.run_tlc("e1", "EBB3LinkMC", "EBB3Link_c05.cfg" if q else "EBB3Link_c05_deep.cfg", coverage=q)
+    ctx.run_tlc("e1.liveness", "EBB3LinkMC", "EBB3Link_live.cfg")          # every public call that was begun returns (silence, faults, error lines)
     g_scripts(ctx, FOCUS, "gen1", "EBB3Link_c05.cfg", 1, True)
     g_scripts(ctx, FOCUS, "gen2", "EBB3Link_gen2.cfg", 2, True, every=1 if not q else 3)
     extra_none_text(ctx)
